@@ -142,6 +142,39 @@ def check_fields(rep, prog):
               "dropped silently and every later field is read from the wrong offset")
 
 
+def check_hexdump_lines(rep, prog, rule, thorough=False):
+    """the shared hex dump shows every byte: its summary is run on sample byte strings of every length around the line
+    and chunk boundaries and compared with the documented line format"""
+    from ..terms import evaluate, CannotEval
+    I = Interpreter(prog)
+    r = I.call(HEXDUMP, [DATA])
+
+    def ref(data):
+        out = []
+        for i in range(0, len(data), 16):
+            chunk = data[i:i + 16]
+            raw = "  ".join(chunk[j:j + 4].hex().upper() for j in range(0, len(chunk), 4))
+            text = "".join(chr(b) if 0x20 <= b < 0x7F else "." for b in chunk)
+            out.append("%08X     %s     %s" % (i, raw.ljust(38), text.ljust(16)))
+        return out
+    bad = None
+    n = 0
+    lengths = list(range(0, 50)) + ([63, 64, 65, 255, 256, 257] if thorough else [64, 65])
+    for ln in lengths:
+        for seed in (11, 0x20, 0x7E):
+            data = bytes((i * 37 + seed) % 256 for i in range(ln))
+            try:
+                got = evaluate(r, pelx.with_heap(I, {DATA: data, Op("len", DATA): ln}))
+            except CannotEval as e:
+                raise AnalysisError("hexdump summary not evaluable: %s" % e)
+            n += 1
+            if list(got) != ref(data) and bad is None:
+                bad = "%d bytes %s are dumped as %r, expected %r" % (ln, data.hex(), list(got)[-2:], ref(data)[-2:])
+    rep.count("hexdump samples evaluated", n)
+    rep.check(bad is None, rule, "hexdump() shows every byte of its input: offset, 16 bytes per line in 4-byte groups, printable column "
+              "(summary run on %d byte strings of length 0..65)" % n, HEXDUMP, "dump.append(...)", bad)
+
+
 def run(rep, prog, thorough):
     rep.explanation = (
         "parse_hlog_data summarised: whole-input hex dump first; one pass over the field table in order; stream position "
@@ -150,5 +183,6 @@ def run(rep, prog, thorough):
         "group = [^\"]+ (regex AST via re._parser); fields appended in file order as (name, size).")
     check_parse(rep, prog)
     check_fields(rep, prog)
+    check_hexdump_lines(rep, prog, "C16.R2.hexdump", thorough)
     from ..effects import check_no_memoised
     check_no_memoised(rep, prog, 'C16.R3.field-table', ['io_drawer', 'pel.hexdump'], 'the field table of an earlier decode is reused although the header file given now may differ')
